@@ -422,7 +422,7 @@ func (g *G) genC15(p *Plan) {
 		nb = g.n(1, 2)
 	}
 	c.Buckets = bucketNames[:nb]
-	keys := plainKeys[g.rng.Intn(len(plainKeys))]
+	keys := append([]string{}, plainKeys[g.rng.Intn(len(plainKeys))]...)
 	bkt := func() string { return c.Buckets[g.rng.Intn(len(c.Buckets))] }
 	key := func() string { return keys[g.rng.Intn(len(keys))] }
 	var ops []Op
@@ -489,7 +489,7 @@ func (g *G) genC10(p *Plan) {
 	if c.Backend == "singlefs" {
 		nb = 1
 	}
-	c.Buckets = bucketNames[:nb]
+	c.Buckets = append([]string{}, bucketNames[:nb]...)
 	var ops []Op
 	// related contents: the same keys in every bucket
 	base := []string{"victim", "dir/obj", "a/b"}
